@@ -312,4 +312,39 @@ example :
     Proofs.childOutcome true (.ok 7) (.ok (127 * 256)) = .waited (.exited 127) ∧
     Proofs.childOutcome true (.err "EAGAIN") (.ok 0) = .cannotRun := by decide
 
+/-! ### Death by a signal of a `command` condition: what the code does (candidate finding, not claimed)
+
+The anchor of C04 says "127 and signals are errors".  For `exec` actions that is `C04_exec_status_is_error`.  For `command`
+conditions the unchanged code makes death by a signal "no match" (`exec()` returns 128 + signal > 0, `expr_eval_command` only
+treats negative values as errors): the reading below is FALSE of the model, and of the binary (tools/cmdstatus.py pins it,
+design-notes/pkg-ce5.md has the reproduction). -/
+
+/-- The reading "a `command` condition whose program is killed by a signal is an error". -/
+def C04_command_signal_is_error : Prop :=
+  ∀ (env : Env) (root : Msg) (lno : Nat) (argv av : List Bytes) (part : Nat) (m : Msg) (st : St) (pid s g : Nat),
+    argv.mapM (interpolate st.ml none) = some av → Proofs.waitKind s = .signaled g →
+    env.command av = Model.execValue true (.ok pid) (.ok s) →
+    (eval env root (.command lno argv) part m st).1 = .error
+
+/-- An environment whose command oracle is `exec()` on a child killed by SIGSEGV (wait status 11). -/
+def segvCommandEnv : Env where
+  rx := fun _ _ => .nomatch
+  command := fun _ => Model.execValue true (.ok 7) (.ok 11)
+  isDir := fun _ => false
+  now := 0
+  strptime := fun _ => none
+  zoneName := fun _ => none
+  fileTime := fun _ => none
+  dryrun := false
+  path := []
+
+/-- It does not hold: `command "x"` whose program dies of SIGSEGV evaluates to "no match". -/
+theorem C04_command_signal_is_error_false : ¬ C04_command_signal_is_error := by
+  intro h
+  have h1 := h segvCommandEnv (parseMessage []) 1 [[120]] [[120]] 0 (parseMessage []) { ml := [], flags := ⟨0, 0⟩ } 7 11 11
+    (by decide +kernel) (by decide) rfl
+  rw [Proofs.eval_command] at h1
+  revert h1
+  decide +kernel
+
 end Mdsort.Props
